@@ -9,7 +9,7 @@
    calls of the alphabet is checked by the correspondence run, see DESIGN.md.) *)
 From Coq Require Import ZArith NArith List Bool.
 From NRF Require Import Env.Radio Env.World Env.WorldFacts Env.CfgFacts Drv.RF24 Drv.RF24Sim
-     Drv.CfgEval Drv.CtxFacts Drv.PipeFacts.
+     Drv.CfgEval Drv.CtxFacts Drv.PipeFacts Drv.PipeHist.
 Import ListNotations.
 Local Open Scope Z_scope.
 
@@ -48,3 +48,33 @@ Theorem C08_tx_ack_path : forall me d w a, PInvW me d w -> (1 <= length a <= 5)%
        /\ (forall j, j <> me -> cview (get_radio w1 j) = cview (get_radio w j)).
 Proof. exact open_tx_pipe_world. Qed.
 Print Assumptions C08_tx_ack_path.
+
+(* ---- The property over HISTORIES ("for any sequence of open_rx_pipe, close_rx_pipe, open_tx_pipe, auto-ack
+   changes and listen toggles").  PipeHist.pop is the alphabet: open_rx_pipe(0, a), close_rx_pipe(0), open_tx_pipe(a),
+   listen = b, auto_ack = b (1..5 address bytes: pop_ok).  PipeHist.ghost is the specification's own bookkeeping,
+   independent of the driver: the complete RX_ADDR_P0 image right after the user's last open_rx_pipe(0, a), None if never
+   opened or closed.  PipeHist.post is what C08 demands of one call: entering RX mode puts CE high, PWR_UP|PRIM_RX, pipe 0
+   on the ghost address and enabled (closed if the ghost is None), TX_ADDR untouched; open_tx_pipe programs TX_ADDR and,
+   with auto-ack on pipe 0, RX_ADDR_P0 = the complete TX address and (in TX mode) pipe 0 enabled; CE is changed only by
+   `listen`.  holdsW says: every call of the sequence returns normally, satisfies post, leaves every other radio's
+   configuration alone -- and so on from the state it leaves.  For EVERY sequence, in EVERY world. *)
+Theorem C08_any_history : forall me ops g d w,
+  (me < length (radios w))%nat -> HInv d (cview (get_radio w me)) -> d_pipe0_read_addr d = g ->
+  Forall pop_ok ops -> holdsW me ops g d w.
+Proof. exact pipe_history_world. Qed.
+Print Assumptions C08_any_history.
+
+(* The hypothesis HInv is what entering the object's `with` block establishes, from any radio state, for an object
+   whose attributes are well formed (DrvOk) and carry no reserved bits / no half-remembered pipe-0 address (DGood);
+   a freshly constructed object is one (init_drv_good). *)
+Theorem C08_invariant_established : forall me d w,
+  (me < length (radios w))%nat -> WfC (cview (get_radio w me)) -> DrvOk d -> DGood d ->
+  exists d1 w1, enter (WB me) d w = (Ok tt, d1, w1)
+    /\ (me < length (radios w1))%nat /\ HInv d1 (cview (get_radio w1 me))
+    /\ d_pipe0_read_addr d1 = d_pipe0_read_addr d
+    /\ (forall j, j <> me -> cview (get_radio w1 j) = cview (get_radio w j)).
+Proof. exact enter_establishes_world. Qed.
+Print Assumptions C08_invariant_established.
+
+Example C08_fresh_object_qualifies : DrvOk init_drv /\ DGood init_drv.
+Proof. exact init_drv_good. Qed.
